@@ -1,12 +1,12 @@
 SPECIFICATION SeamSpec
 CONSTANTS
-  Sess = {"s1","s2"}
+  Sess = {"s1"}
   Reqs = {"r1","r2"}
   Gets = {"g1"}
   Cfgs <- CfgStoreMixed
   MaxEmit = 1
   MaxSreq = 1
-  MaxSa = 1
+  MaxSa = 0
   Gates = FALSE
 VIEW MCView
 CHECK_DEADLOCK FALSE
